@@ -19,6 +19,8 @@ pub open spec fn stmt_kind(k: LuaScopeKind) -> bool {
     k == LuaScopeKind::LocalOrAssignStat || k == LuaScopeKind::FuncStat || k == LuaScopeKind::MethodStat
 }
 pub open spec fn func_kind(k: LuaScopeKind) -> bool { k == LuaScopeKind::FuncStat || k == LuaScopeKind::MethodStat }
+/// a block: kind Normal, or (body_kind(): the builder marks them) the body block of a for / repeat statement, kind LoopBody (is_lbk)
+pub open spec fn block_kind(k: LuaScopeKind) -> bool { k == LuaScopeKind::Normal || is_lbk(k) }
 // (named so that the quantifiers of tree_wf have triggers that their own bodies do not produce)
 pub open spec fn is_stmt(ss: Seq<LuaScope>, i: int) -> bool { stmt_kind(kd(ss, i)) }
 pub open spec fn is_func(ss: Seq<LuaScope>, i: int) -> bool { func_kind(kd(ss, i)) }
@@ -90,18 +92,21 @@ pub open spec fn m_walk(ss: Seq<LuaScope>, ks: Seq<ScopeOrDeclId>, j: int) -> Se
 pub open spec fn m_search(ss: Seq<LuaScope>, i: int, p: int) -> Seq<ScopeOrDeclId> {
     m_walk(ss, kids(ss, i), m_cut(ss, kids(ss, i), p, kids(ss, i).len() as int))
 }
-/// p is inside the BODY of scope s: its last child, a scope (function body / loop body block); is_in_loop_body of the repaired code
+/// p is inside the body block of the for scope s as the code finds it (is_in_loop_body): the last child, a scope (body_kind(): of kind
+/// LoopBody - while the header is analysed, or when the body is empty, the last child is not such a block and there is no body)
 pub open spec fn in_body(ss: Seq<LuaScope>, s: int, p: int) -> bool {
-    kids(ss, s).len() > 0 && (kids(ss, s).last() matches ScopeOrDeclId::Scope(sid) && (sid.id as int) < ss.len() && rng(ss, sid.id as int, p))
+    kids(ss, s).len() > 0 && (kids(ss, s).last() matches ScopeOrDeclId::Scope(sid) && (sid.id as int) < ss.len()
+        && (!body_kind() || is_lbk(kd(ss, sid.id as int))) && rng(ss, sid.id as int, p))
 }
 /// the search of a scope's own children in the non-entry visit (hdr_trav(): a ForRange scope is searched only from its body)
 pub open spec fn lsearch(ss: Seq<LuaScope>, i: int, p: int) -> Seq<ScopeOrDeclId> {
     if hdr_trav() && kd(ss, i) == LuaScopeKind::ForRange && !in_body(ss, i, p) { Seq::empty() } else { m_search(ss, i, p) }
 }
 pub open spec fn par_ok(ss: Seq<LuaScope>, i: int) -> bool { 0 <= par(ss, i) < i }
-/// first child of a scope, as a scope index (-1: no children / first child is a declaration / id out of range)
+/// the body block of a repeat scope as the code finds it: the first child, a scope (body_kind(): of kind LoopBody); -1 if there is none
 pub open spec fn first_scope(ss: Seq<LuaScope>, i: int) -> int {
-    if kids(ss, i).len() > 0 && (kids(ss, i)[0] matches ScopeOrDeclId::Scope(sid) && i < sid.id < ss.len()) {
+    if kids(ss, i).len() > 0 && (kids(ss, i)[0] matches ScopeOrDeclId::Scope(sid) && i < sid.id < ss.len()
+            && (!body_kind() || is_lbk(kd(ss, sid.id as int)))) {
         (kids(ss, i)[0]->Scope_0).id as int
     } else { -1 }
 }
@@ -306,21 +311,35 @@ pub open spec fn wf_order(ss: Seq<LuaScope>) -> bool {
     forall|i: int, a: int, b: int| 0 <= i < ss.len() && kd(ss, i) != LuaScopeKind::LocalOrAssignStat && 0 <= a < b < kids(ss, i).len() ==>
         cend(ss, #[trigger] kids(ss, i)[a]) <= cpos(ss, #[trigger] kids(ss, i)[b])
 }
-/// a Repeat scope holds no declarations; its first child is the body block (kind Normal), which holds no declarations directly
+/// a Repeat scope holds no declarations; its body block, if the code finds one (first_scope), is a block and holds no declarations directly.
+/// !body_kind() (the builder does not mark body blocks): ASSUMED that there always is one, i.e. that the first child scope is the body -
+/// false for an empty body, for which the parser creates no Block node (replay/c13 finding L2)
 pub open spec fn wf_repeat(ss: Seq<LuaScope>) -> bool {
     forall|i: int| 0 <= i < ss.len() && #[trigger] is_repeat(ss, i) ==> {
-        &&& first_scope(ss, i) >= 0
-        &&& kd(ss, first_scope(ss, i)) == LuaScopeKind::Normal
+        &&& body_kind() || first_scope(ss, i) >= 0
+        &&& first_scope(ss, i) >= 0 ==> block_kind(kd(ss, first_scope(ss, i)))
         &&& forall|k: int| 0 <= k < kids(ss, i).len() ==> #[trigger] kids(ss, i)[k] is Scope
-        &&& forall|k: int| 0 <= k < kids(ss, first_scope(ss, i)).len() ==> #[trigger] kids(ss, first_scope(ss, i))[k] is Scope
+        &&& first_scope(ss, i) >= 0 ==> forall|k: int| 0 <= k < kids(ss, first_scope(ss, i)).len() ==> #[trigger] kids(ss, first_scope(ss, i))[k] is Scope
     }
 }
-/// statement scopes (`local`/assignment, function statements): not empty, a direct child of a block (kind Normal), their declarations are
+pub open spec fn is_lb(ss: Seq<LuaScope>, i: int) -> bool { is_lbk(kd(ss, i)) }
+/// body_kind(): what the builder guarantees about a scope of kind LoopBody (walk_node_enter: a Block whose parent node is a for / repeat
+/// statement): it is a child of a ForRange or Repeat scope; the body of a repeat statement precedes the condition (first child), the body of a
+/// for statement follows the header (last child)
+pub open spec fn wf_body(ss: Seq<LuaScope>) -> bool {
+    forall|c: int| 0 <= c < ss.len() && #[trigger] is_lb(ss, c) ==> {
+        &&& c > 0 && 0 <= par(ss, c) < c
+        &&& kd(ss, par(ss, c)) == LuaScopeKind::Repeat || kd(ss, par(ss, c)) == LuaScopeKind::ForRange
+        &&& kd(ss, par(ss, c)) == LuaScopeKind::Repeat ==> first_scope(ss, par(ss, c)) == c
+        &&& kd(ss, par(ss, c)) == LuaScopeKind::ForRange ==> kids(ss, par(ss, c)).len() > 0 && kids(ss, par(ss, c)).last() is Scope && sidx(kids(ss, par(ss, c)).last()) == c
+    }
+}
+/// statement scopes (`local`/assignment, function statements): not empty, a direct child of a block (block_kind), their declarations are
 /// name tokens inside the statement
 pub open spec fn wf_stmt(ss: Seq<LuaScope>) -> bool {
     forall|i: int| 0 <= i < ss.len() && #[trigger] is_stmt(ss, i) ==> {
         &&& st(ss, i) < en(ss, i)
-        &&& i > 0 && 0 <= par(ss, i) && kd(ss, par(ss, i)) == LuaScopeKind::Normal
+        &&& i > 0 && 0 <= par(ss, i) && block_kind(kd(ss, par(ss, i)))
         &&& forall|k: int| 0 <= k < kids(ss, i).len() ==> (#[trigger] kids(ss, i)[k] matches ScopeOrDeclId::Decl(d) ==> st(ss, i) <= pos_of(d) < en(ss, i))
     }
 }
@@ -361,6 +380,7 @@ pub open spec fn tree_wf(ss: Seq<LuaScope>) -> bool {
     &&& wf_ranges(ss)
     &&& wf_order(ss)
     &&& wf_repeat(ss)
+    &&& wf_body(ss)
     &&& wf_stmt(ss)
     &&& wf_func(ss)
     &&& wf_local(ss)
@@ -380,11 +400,10 @@ pub open spec fn ext_inside(ss: Seq<LuaScope>, b: int, p: int) -> bool {
 /// that hold declarations (numeric-for variable, generic-for variables, parameters, implicit self) at positions outside the scope's body.
 pub open spec fn region(ss: Seq<LuaScope>, s: int, d: LuaDeclId, p: int, lua: bool) -> bool {
     match kd(ss, s) {
-        // (iv) loop variables, parameters, implicit self: visible in the body only, not in the header expressions
+        // (iv) loop variables, parameters, implicit self: visible in the body only, not in the header expressions (last arm: blocks)
         // (a Normal scope that holds declarations is a closure or - today's builder, !enc_for() - a numeric for; once the builder gives the
         // numeric for the kind ForRange, enc_for(), only closures are left: parameters are visible in the whole function behind their name,
         // the parameter list holds no expressions)
-        LuaScopeKind::Normal => (if lua && !enc_for() { in_body(ss, s, p) } else { inside(ss, s, p) }) && pos_of(d) < p,
         LuaScopeKind::ForRange => (if lua || hdr_trav() { in_body(ss, s, p) } else { in_some_child(ss, s, p) }) && pos_of(d) < p,
         LuaScopeKind::Repeat => false,
         // (ii) `local x = x`: the names of a local / assignment statement are visible after the statement (to the end of the enclosing block,
@@ -392,6 +411,8 @@ pub open spec fn region(ss: Seq<LuaScope>, s: int, d: LuaDeclId, p: int, lua: bo
         LuaScopeKind::LocalOrAssignStat => s > 0 && 0 <= par(ss, s) && ext_inside(ss, par(ss, s), p) && en(ss, s) <= p,
         // (iii) a function statement's name is visible from the statement on: inside its own body and after it
         LuaScopeKind::FuncStat | LuaScopeKind::MethodStat => s > 0 && 0 <= par(ss, s) && ext_inside(ss, par(ss, s), p) && st(ss, s) < p,
+        // blocks (kind Normal / LoopBody): see the comment at the top
+        _ => (if lua && !enc_for() { in_body(ss, s, p) } else { inside(ss, s, p) }) && pos_of(d) < p,
     }
 }
 pub open spec fn visible(ss: Seq<LuaScope>, d: LuaDeclId, p: int, lua: bool) -> bool {
